@@ -32,7 +32,13 @@ type c08case struct {
 
 var c08bases = []string{"os", "mem", "mount", "mount-os"}
 
-var c08targets = []string{"f", "d", "e", "new", "nope/new", "f/x", ".", "d/x", "d/sub/deeper", "ln"}
+var c08targets = []string{"f", "d", "e", "new", "nope/new", "f/x", ".", "d/x", "d/sub/deeper", "ln", "../f", "d/../f", ""}
+
+// c08openFlags: flag sets for the OpenFile helper (variant 0 is the first)
+var c08openFlags = []int{os.O_RDWR | os.O_CREATE, os.O_RDONLY, os.O_RDONLY | os.O_TRUNC, os.O_WRONLY | os.O_APPEND, os.O_RDWR | os.O_CREATE | os.O_EXCL, os.O_RDONLY | os.O_APPEND, os.O_WRONLY | os.O_TRUNC}
+
+// c08subSecond: for the Sub helper's nested variant (a view of "d", then a view of this inside it)
+var c08subSecond = []string{"y", ".", "x", "missing", "../f", "..", "y/../../f", "", "y/"}
 
 // helper -> the Step kinds that invoke it
 // c08chmodModes: plain permission bits, and modes carrying the special bits Chmod may set.
@@ -43,6 +49,14 @@ func c08step(helper, target string, variant ...int) fsx.Step {
 	switch helper {
 	case "OpenFile":
 		st.K, st.Flag = "Open", os.O_RDWR|os.O_CREATE // the handle is closed by the caller; no I/O of the harness's own
+		if len(variant) > 0 {
+			st.Flag = c08openFlags[variant[0]%len(c08openFlags)]
+		}
+	case "Sub":
+		if len(variant) > 0 && variant[0] > 0 {
+			// nested: Sub("d") of the subject, then Sub(second) of that view
+			st.K, st.P, st.P2 = "SubSub", "d", c08subSecond[(variant[0]-1)%len(c08subSecond)]
+		}
 	case "Mkdir", "MkdirAll":
 		st.Perm = 0o750
 	case "Rename", "Symlink":
@@ -116,6 +130,16 @@ func c08build() {
 							c08list = append(c08list, c08case{Base: base, Helper: h, Off: off, FileOff: fo, ArgIndex: ai})
 							if h == "Chmod" {
 								for v := 1; v < len(c08chmodModes); v++ {
+									c08list = append(c08list, c08case{Base: base, Helper: h, Off: off, FileOff: fo, ArgIndex: ai, Variant: v})
+								}
+							}
+							if h == "OpenFile" && ai < 3 { // targets f, d, e
+								for v := 1; v < len(c08openFlags); v++ {
+									c08list = append(c08list, c08case{Base: base, Helper: h, Off: off, FileOff: fo, ArgIndex: ai, Variant: v})
+								}
+							}
+							if h == "Sub" && ai == 0 {
+								for v := 1; v <= len(c08subSecond); v++ {
 									c08list = append(c08list, c08case{Base: base, Helper: h, Off: off, FileOff: fo, ArgIndex: ai, Variant: v})
 								}
 							}
@@ -243,10 +267,16 @@ func newC08World(env *core.Env, base string, off, fileOff uint32, state ...int) 
 	return w, nil
 }
 
-func c08apply(w *c08world, cs c08case, failAt int) (fsx.Result, fsx.Snap, []string) {
+func c08apply(w *c08world, cs c08case, failAt int, partial ...bool) (fsx.Result, fsx.Snap, []string) {
 	var hs fsx.Handles
 	defer hs.CloseAll()
 	w.base.Reset(failAt)
+	setPartial := func() {
+		if len(partial) > 0 && partial[0] {
+			w.base.Partial = true
+		}
+	}
+	setPartial()
 	var r fsx.Result
 	if strings.HasPrefix(cs.Helper, "H.") {
 		target := []string{"f", "d"}[cs.ArgIndex]
@@ -260,6 +290,7 @@ func c08apply(w *c08world, cs c08case, failAt int) (fsx.Result, fsx.Snap, []stri
 			return o, nil, nil
 		}
 		w.base.Reset(failAt)
+		setPartial()
 		st := fsx.Step{K: cs.Helper, N: 2, Data: "hw", Off: 1, Perm: 0o600}
 		if cs.Variant > 0 {
 			st.Perm = c08chmodModes[cs.Variant%len(c08chmodModes)]
@@ -269,7 +300,25 @@ func c08apply(w *c08world, cs c08case, failAt int) (fsx.Result, fsx.Snap, []stri
 		}
 		r = fsx.Exec(w.fs, st, &hs, nil)
 	} else {
-		r = fsx.Exec(w.fs, c08step(cs.Helper, c08targets[cs.ArgIndex], cs.Variant), &hs, nil)
+		st := c08step(cs.Helper, c08targets[cs.ArgIndex], cs.Variant)
+		if st.K == "SubSub" {
+			// the two Sub calls run under the fault plan; what the nested view shows is read afterwards, fault-free
+			st.N = 1
+			r = fsx.Exec(w.fs, st, &hs, nil)
+			calls := append([]string(nil), w.base.Calls...)
+			fired := w.base.Fired
+			if r.OK() {
+				w.base.Reset(-1)
+				st.N = 0
+				r.Data = fsx.Exec(w.fs, st, &hs, nil).Data
+			}
+			w.base.Reset(-1)
+			w.base.Fired = fired
+			hs.CloseAll()
+			snap, _ := fsx.Snapshot(w.inner, nil)
+			return r, snap, calls
+		}
+		r = fsx.Exec(w.fs, st, &hs, nil)
 	}
 	calls := append([]string(nil), w.base.Calls...)
 	hs.CloseAll()
@@ -370,12 +419,24 @@ func c08run(env *core.Env, idx int) core.CaseResult {
 		}
 	}
 	// fault enumeration over the primitives of the masked run
+	type faultRun struct {
+		k       int
+		partial bool
+	}
+	var faultRuns []faultRun
 	for k := range mcalls {
+		faultRuns = append(faultRuns, faultRun{k, false})
+		if mcalls[k] == "file.ReadDir" || mcalls[k] == "file.Read" || mcalls[k] == "file.Write" {
+			faultRuns = append(faultRuns, faultRun{k, true}) // also failing part-way: part of the result plus the error
+		}
+	}
+	for _, fr := range faultRuns {
+		k := fr.k
 		w, err := newC08World(env, cs.Base, cs.Off, cs.FileOff, cs.State)
 		if err != nil {
 			break
 		}
-		r, snap, _ := c08apply(w, cs, k)
+		r, snap, _ := c08apply(w, cs, k, fr.partial)
 		fired := w.base.Fired
 		w.cleanup()
 		if !fired {
